@@ -128,4 +128,64 @@ theorem witnessProgramInfo_templates (s p : List UInt8) :
       rfl
     · cases h
 
+
+
+theorem forall_uint8' (P : UInt8 → Prop) (h : ∀ n, n < 256 → P (UInt8.ofNat n)) (c : UInt8) : P c := by
+  have := h c.toNat c.toNat_lt
+  rwa [UInt8.ofNat_toNat] at this
+
+set_option maxRecDepth 40000 in
+theorem nullData_single : ∀ b : UInt8, b ≠ 0x81 → isNullData (0x6a :: canonicalPush [b]) = true := by
+  apply forall_uint8'; decide
+
+theorem toNat_ofNat_lt (n : Nat) (h : n < 256) : (UInt8.ofNat n).toNat = n := by
+  simp [UInt8.toNat_ofNat', Nat.mod_eq_of_lt h]
+
+/-- `NullDataScript d` is recognised as null data for every payload of at most 80 bytes except the single byte
+0x81, which `AddData` turns into OP_1NEGATE — an opcode the recogniser does not count as a push -/
+theorem nullDataScript_recognised (d : List UInt8) (hl : d.length ≤ 80) (h81 : d ≠ [0x81]) :
+    ∃ s, nullDataScript d = some s ∧ isNullData s = true := by
+  unfold nullDataScript
+  rw [if_neg (by omega)]
+  refine ⟨_, rfl, ?_⟩
+  match d, hl, h81 with
+  | [], _, _ => decide
+  | [b], _, h81 => exact nullData_single b (fun e => h81 (by rw [e]))
+  | a :: b :: t, hl, _ =>
+    have hlen : (a :: b :: t).length = t.length + 2 := rfl
+    generalize hd : a :: b :: t = d at *
+    have hne : d ≠ [] := by rw [← hd]; simp
+    by_cases h75 : d.length ≤ 75
+    · have hcp : canonicalPush d = UInt8.ofNat d.length :: d := by
+        subst hd; simp only [canonicalPush]; simp only [h75, if_true]
+      rw [hcp]
+      have hn := toNat_ofNat_lt d.length (by omega)
+      have h1 : (1 : UInt8) ≤ UInt8.ofNat d.length := by rw [UInt8.le_iff_toNat_le, hn]; simp; omega
+      have h2 : UInt8.ofNat d.length ≤ 75 := by rw [UInt8.le_iff_toNat_le, hn]; simpa using h75
+      have ht : tokNext (UInt8.ofNat d.length :: d) = some (UInt8.ofNat d.length, d, []) := by
+        unfold tokNext
+        simp only [h1, h2, decide_true, Bool.and_self, if_true, hn]
+        rw [if_neg (by omega), List.take_length, List.drop_length]
+      unfold isNullData
+      simp only [ne_eq, not_true_eq_false, if_false, ht]
+      have h3 : UInt8.ofNat d.length ≤ 0x4e := by rw [UInt8.le_iff_toNat_le, hn]; simp; omega
+      simp [h3, hne]; omega
+    · have hcp : canonicalPush d = 0x4c :: UInt8.ofNat d.length :: d := by
+        have h255 : d.length ≤ 255 := by omega
+        subst hd; simp only [canonicalPush]; simp only [h75, h255, if_true, if_false]
+      rw [hcp]
+      have hn := toNat_ofNat_lt d.length (by omega)
+      have ht : tokNext (0x4c :: UInt8.ofNat d.length :: d) = some (0x4c, d, []) := by
+        unfold tokNext
+        have c1 : (decide ((1 : UInt8) ≤ 0x4c) && decide ((0x4c : UInt8) ≤ 75)) = false := by decide
+        simp only [c1, Bool.false_eq_true, if_false]
+        simp only [decide_true, Bool.true_or, if_true, List.length_cons, List.take_succ_cons, List.take_zero,
+          List.foldr_cons, List.foldr_nil, Nat.zero_mul, Nat.zero_add, hn, List.drop_succ_cons, List.drop_zero]
+        rw [if_neg (by omega)]
+        have : ¬ ((decide (d.length ≥ 2 ^ 31) || decide (d.length > d.length)) = true) := by simp; omega
+        rw [if_neg this, List.take_length, List.drop_length]
+      unfold isNullData
+      simp only [ne_eq, not_true_eq_false, if_false, ht]
+      simp [hl]
+
 end BV.C16.Lemmas
